@@ -47,6 +47,11 @@ func Apply(s *State, label string, lag int) error {
 	}
 	arg := f[1]
 	setName := "web"
+	if _, ok := s.API.Sets[setName]; !ok && len(s.API.Sets) == 1 {
+		for n := range s.API.Sets {
+			setName = n
+		}
+	}
 	bump := func(p *v1.Pod) *v1.Pod {
 		n := p.DeepCopy()
 		n.ResourceVersion = s.nextRV()
